@@ -238,8 +238,13 @@ def main(prop, tier, seed, replay=None):
     violations.extend(res.get("violations", []))
     disagreements = res.get("disagreements", [])
 
-    # 5. a broken obligation or correspondence without a failing input is still reported
-    if (broken or disagreements) and not violations:
+    # 5. a broken obligation or correspondence without a failing input is still reported (a violation that is a listed known
+    #    finding is no explanation for a broken obligation)
+    known_sigs = set(k.get("signature") for k in load_findings().get("known", []) if k.get("property") == prop)
+
+    def unexplained(vs):
+        return [v for v in vs if not (v.signature and v.signature in known_sigs)]
+    if (broken or disagreements) and not unexplained(violations):
         # directed search on the real implementation
         try:
             extra = mod.search(ctx, broken, disagreements) if hasattr(mod, "search") else []
@@ -249,7 +254,7 @@ def main(prop, tier, seed, replay=None):
                 ctx.model.close()
             return 2
         violations.extend(extra)
-        if not violations:
+        if not unexplained(violations):
             what = "; ".join([b[0] for b in broken] + ["model/implementation correspondence broken: %s" % d.get("what", "") for d in disagreements[:3]])
             violations.append(Violation(what, dict(property=prop, broken=[dict(what=b[0], detail=b[1]) for b in broken],
                                                   disagreements=disagreements[:5],
